@@ -294,6 +294,10 @@ class QubitHamiltonian(QubitOperator):
 
     def __iadd__(self, other_hamiltonian):
 
+        # A plain QubitOperator carries no attributes: treat it as a bare QubitHamiltonian.
+        if isinstance(other_hamiltonian, of.QubitOperator) and not isinstance(other_hamiltonian, QubitHamiltonian):
+            other_hamiltonian = qubitop_to_qubitham(other_hamiltonian, None, None)
+
         # Raise error if attributes are not the same across Hamiltonians. This
         # check is ignored if comparing to a QubitOperator or a bare
         # QubitHamiltonian.
@@ -308,7 +312,14 @@ class QubitHamiltonian(QubitOperator):
 
         return super(QubitOperator, self).__iadd__(other_hamiltonian)
 
+    def __isub__(self, other_hamiltonian):
+        return self.__iadd__(-1. * other_hamiltonian)
+
     def __eq__(self, other_hamiltonian):
+
+        # A plain QubitOperator carries no attributes: treat it as a bare QubitHamiltonian.
+        if isinstance(other_hamiltonian, of.QubitOperator) and not isinstance(other_hamiltonian, QubitHamiltonian):
+            other_hamiltonian = qubitop_to_qubitham(other_hamiltonian, None, None)
 
         # Additional checks for == operator. This check is ignored if comparing
         # to a QubitOperator or a bare QubitHamiltonian.
